@@ -109,7 +109,7 @@ func runC10(s *Sim) {
 			y.Advance(Pick(t, "hadv", 50*time.Millisecond, 500*time.Millisecond, 3*time.Second))
 		}
 	}
-	outage := Pick(t, "outage", "none", "none", "reconnecting", "half-resume", "cut-then-recovered")
+	outage := Pick(t, "outage", "none", "none", "reconnecting", "half-resume", "cut-then-recovered", "redial-succeeds-around-close")
 	switch outage {
 	case "reconnecting":
 		s.mu.Lock()
@@ -120,6 +120,24 @@ func runC10(s *Sim) {
 		}
 		y.Advance(y.PingInterval + y.PingTimeout + time.Second)
 		s.Stat("fault.cut+dial-fail")
+	case "redial-succeeds-around-close":
+		// the connection is lost, a few redials fail, and the one that succeeds does so while
+		// Close is being called (the handshake response is still on its way)
+		s.mu.Lock()
+		s.Net.DialFail = Pick(t, "redial-fails", 1, 0, 2, 3)
+		s.mu.Unlock()
+		s.Broker.Cfg.AutoReq = true
+		for _, l := range y.aliveLinks() {
+			l.Kill(errClosed, errClosed)
+		}
+		s.Advance(y.PingInterval + y.PingTimeout + Pick(t, "redial-wait", time.Duration(0), 50*time.Millisecond, 200*time.Millisecond, time.Second))
+		if t.Bool("handshake-half-way", 1, 2) {
+			// the broker has seen the ConnectRequest; its response is delivered only after Close started
+			for _, l := range y.aliveLinks() {
+				l.IngestAll()
+			}
+		}
+		s.Stat("fault.cut+redial-around-close")
 	case "half-resume":
 		s.Broker.Cfg.AutoReq = false // resume requests stay unanswered
 		for _, l := range y.aliveLinks() {
